@@ -385,6 +385,13 @@ func preludeD(w *lineWriter, m Mix) {
 	w.add("\treturn g")
 	w.add("}")
 	w.add("")
+	w.add("// WT and WPT embed T (by value / by pointer): T's fields are promoted; WTw embeds the unannotated twin.")
+	w.add("type WT struct{ T }")
+	w.add("")
+	w.add("type WPT struct{ *T }")
+	w.add("")
+	w.add("type WTw struct{ P }")
+	w.add("")
 	w.add("// O is a plain struct holding T.")
 	w.add("type O struct {")
 	w.add("\tIn T")
@@ -393,7 +400,7 @@ func preludeD(w *lineWriter, m Mix) {
 	w.add("")
 	w.add("func GetP() *T { return nil }")
 	w.add("")
-	w.add("func Env() (x T, p *T, r *T, o O, op *O, arr []T, tw P, tp *P, y int, rn *N, x2 T2, u2 U2, gx GT[int], gp *GT[int]) { return }")
+	w.add("func Env() (x T, p *T, r *T, o O, op *O, arr []T, tw P, tp *P, y int, rn *N, x2 T2, u2 U2, gx GT[int], gp *GT[int], wt WT, wpt *WPT, wtw WTw) { return }")
 	w.add("")
 }
 
@@ -574,7 +581,7 @@ func (r *renderer) subst(stmt string) string {
 func (r *renderer) params(skip string) string {
 	all := []struct{ n, t string }{
 		{"x", r.tName}, {"p", r.ptName}, {"r", r.ptName}, {"o", r.oName}, {"op", "*" + r.oName},
-		{"arr", "[]" + r.tName}, {"tw", r.pName}, {"tp", "*" + r.pName}, {"y", "int"}, {"rn", "*" + r.nName}, {"x2", r.q + "T2"}, {"u2", r.q + "U2"}, {"gx", r.q + "GT[int]"}, {"gp", "*" + r.q + "GT[int]"},
+		{"arr", "[]" + r.tName}, {"tw", r.pName}, {"tp", "*" + r.pName}, {"y", "int"}, {"rn", "*" + r.nName}, {"x2", r.q + "T2"}, {"u2", r.q + "U2"}, {"gx", r.q + "GT[int]"}, {"gp", "*" + r.q + "GT[int]"}, {"wt", r.q + "WT"}, {"wpt", "*" + r.q + "WPT"}, {"wtw", r.q + "WTw"},
 	}
 	var parts []string
 	for _, a := range all {
@@ -624,8 +631,8 @@ func (r *renderer) block(w *lineWriter, pkgPath string, bi int, b Block) {
 		w.addf("func %s(%s) {", b.Encl.fixedName(), r.params(""))
 	case EInit:
 		w.add("func init() {")
-		w.add("\tx, p, r, o, op, arr, tw, tp, y, rn, x2, u2, gx, gp := " + r.subst("{Env}") + "()")
-		w.add("\tuse(x, p, r, o, op, arr, tw, tp, y, rn, x2, u2, gx, gp)")
+		w.add("\tx, p, r, o, op, arr, tw, tp, y, rn, x2, u2, gx, gp, wt, wpt, wtw := " + r.subst("{Env}") + "()")
+		w.add("\tuse(x, p, r, o, op, arr, tw, tp, y, rn, x2, u2, gx, gp, wt, wpt, wtw)")
 	case EMethTPtr:
 		w.addf("func (r *T) m%d(%s) {", bi, r.params("r"))
 	case EMethTVal:
